@@ -332,8 +332,6 @@ def _worker(args):
         import ctypes
 
         ctypes.CDLL("libc.so.6", use_errno=True).prctl(1, int(signal.SIGKILL))
-        if os.getppid() == 1:
-            os._exit(0)
     except Exception:
         pass
     try:
